@@ -16,7 +16,7 @@ implementation itself uses for that field (format_float for coordinates / textur
 integers stay integers; text is a list of code points.
 """
 from __future__ import annotations
-import math, random, array
+import math, random, array, copy
 
 SIGMA17 = ['\\', '"', "'", '\r', '\n', '\t', '\v', '\b', '\f', '\a', '?', '/', 'n', 'a', ' ', 'é', '\U0001F600']
 # names (entity keys, output names) cannot contain CR/LF: Keyvalues.parse rejects them (newline_keys=False)
@@ -60,6 +60,7 @@ class Profile:
         self.p_zero_view = 0.3        # Strata 2D viewport with u or v equal to 0
         self.p_preserve = 0.5         # build the map with preserve_ids=True (arbitrary, possibly repeated ids)
         self.big_fixup_ids = 0.1      # fixup indexes >= 100
+        self.p_shapes = 0.4           # per array / list / object: a boundary shape instead of random data (see SHAPES)
         for k, v in kw.items():
             if not hasattr(self, k):
                 raise TypeError(k)
@@ -201,6 +202,8 @@ def make_side(rng, prof, vmf, planes=None, free=False):
     power = 0
     if rng.random() < prof.p_disp:
         power = rng.randint(1, prof.max_power)
+        if rng.random() < prof.p_shapes:
+            power = rng.choice([1, prof.max_power])      # both ends of the size range
     mat = rng.choice(['tools/toolsnodraw', 'brick/brickwall001a', 'Dev/dev_MEASUREgeneric01'])
     if rng.random() < prof.p_weird_names * 0.5:
         mat = text(rng, [c for c in VALUE_ALPHA if c not in '\r\n'], 0, 8)
@@ -252,6 +255,109 @@ def fill_disp(rng, prof, side):
                 v.multi_alpha = V.Vec4(*(gval(rng, prof) for _ in range(4)))
                 if rng.random() < 0.7:
                     v.multi_colors = [vec(rng, prof) if rng.random() < 0.5 else Vec(1, 1, 1) for _ in range(4)]
+    if prof.p_shapes:
+        shape_disp(rng, prof, side)
+
+
+# Boundary shapes of an array: writers and readers tend to special-case "nothing to write" (all zero,
+# all default) and the ends of an array, and random data never produces a constant array.
+SHAPES = ['zero', 'default', 'const', 'one_first', 'one_last', 'one_mid']
+
+
+def shaped(rng, n, zero, default, nonzero, shape=None):
+    """A list of n fresh values in one of the SHAPES; zero/default/nonzero are thunks making one value
+    (nonzero is called ONCE: `const` repeats that value, `one_*` puts it at one index among zeros)."""
+    shape = shape or rng.choice(SHAPES)
+    if shape == 'zero':
+        return [zero() for _ in range(n)]
+    if shape == 'default':
+        return [default() for _ in range(n)]
+    c = nonzero()
+    if shape == 'const':
+        return [copy.deepcopy(c) for _ in range(n)]
+    idx = {'one_first': 0, 'one_last': n - 1, 'one_mid': n // 2}[shape]
+    return [copy.deepcopy(c) if i == idx else zero() for i in range(n)]
+
+
+def _nz_vec(rng, prof):
+    _, _, Vec, _, _ = S()
+    v = vec(rng, prof)
+    return v if v else Vec(0, 0, rng.choice([1, -1, 0.5]))
+
+
+def shape_disp(rng, prof, side, p=None):
+    """Replace whole per-vertex arrays (and `allowed_verts`) of a displacement by boundary shapes."""
+    _, V, Vec, _, _ = S()
+    p = prof.p_shapes if p is None else p
+    size = side.disp_size
+    verts = [side[x, y] for y in range(size) for x in range(size)]
+    n = len(verts)
+    fresh = lambda: V.DispVertex(0, 0)       # the code's own defaults
+    flt = lambda: rng.choice([1.0, 255.0, -2.5, rng.uniform(-64, 64) or 1.0])
+    v4 = lambda: V.Vec4(*(rng.choice([1.0, 0.5, gval(rng, prof) or 1.0]) for _ in range(4)))
+    arrays = [
+        ('normal', Vec, lambda: fresh().normal, lambda: _nz_vec(rng, prof)),
+        ('distance', lambda: 0.0, lambda: fresh().distance, flt),
+        ('offset', Vec, lambda: fresh().offset, lambda: _nz_vec(rng, prof)),
+        ('offset_norm', Vec, lambda: fresh().offset_norm, lambda: _nz_vec(rng, prof)),
+        ('alpha', lambda: 0.0, lambda: fresh().alpha, flt),
+        ('triangle_a', lambda: V.TriangleTag(0), lambda: fresh().triangle_a, lambda: rng.choice([V.TriangleTag.WALKABLE, V.TriangleTag.BUILDABLE])),
+        ('triangle_b', lambda: V.TriangleTag(0), lambda: fresh().triangle_b, lambda: rng.choice([V.TriangleTag.WALKABLE, V.TriangleTag.BUILDABLE])),
+        ('multi_blend', lambda: V.Vec4(0.0, 0.0, 0.0, 0.0), lambda: fresh().multi_blend, v4),
+        ('multi_alpha', lambda: V.Vec4(0.0, 0.0, 0.0, 0.0), lambda: fresh().multi_alpha, v4),
+        ('multi_colors', lambda: [Vec() for _ in range(4)], lambda: fresh().multi_colors,
+         lambda: shaped(rng, 4, Vec, lambda: Vec(1, 1, 1), lambda: _nz_vec(rng, prof))),
+    ]
+    for name, zero, default, nonzero in arrays:
+        if rng.random() < p:
+            for v, val in zip(verts, shaped(rng, n, zero, default, nonzero)):
+                setattr(v, name, val)
+    if rng.random() < p:
+        side.disp_allowed_vert = array.array('i', shaped(rng, 10, lambda: 0, lambda: -1, lambda: rng.choice([1, 2 ** 31 - 1, -2 ** 31, rng.randint(-1000, 1000) or 7])))
+
+
+def default_scalars(rng, prof, vmf, p=None):
+    """Set scalar fields, per object, to the value the READER assumes when the key is missing
+    (`Gen.VmfKeys.defaults`): a writer that omits "default" values, or a reader default that drifts,
+    only shows on exactly these values."""
+    _, V, Vec, _, _ = S()
+    p = prof.p_shapes if p is None else p
+    hit = lambda: rng.random() < p
+    if hit():
+        vmf.hammer_ver, vmf.hammer_build, vmf.is_prefab, vmf.map_ver = 400, 5304, False, 0
+    if hit():
+        vmf.snap_grid, vmf.show_grid, vmf.show_3d_grid, vmf.show_logic_grid, vmf.grid_spacing = True, True, False, False, 64
+    if hit():
+        vmf.cordon_enabled, vmf.active_cam, vmf.quickhide_count = False, -1, 0
+    for vis in vmf.vis_tree:
+        if hit():
+            vis.color = Vec(255, 255, 255)
+    for grp in vmf.groups.values():
+        if hit():
+            grp.shown, grp.auto_shown, grp.color = True, True, Vec(255, 255, 255)
+    for cam in vmf.cameras:
+        if hit():
+            cam.pos, cam.target = Vec(0, 0, 0), Vec(0, 64, 0)
+    for cor in vmf.cordons:
+        if hit():
+            cor.name, cor.active, cor.bounds_min, cor.bounds_max = 'cordon', False, Vec(0, 0, 0), Vec(128, 128, 128)
+    for ent in [vmf.spawn] + list(vmf.entities):
+        if hit():
+            ent.vis_shown, ent.vis_auto_shown, ent.editor_color = True, True, Vec(255, 255, 255)
+        for solid in ent.solids:
+            if hit():
+                solid.vis_shown, solid.vis_auto_shown, solid.editor_color = True, True, Vec(255, 255, 255)
+            for side in solid.sides:
+                if hit():
+                    side.lightmap, side.smooth, side.ham_rot = 16, 0, 0.0
+                if hit():
+                    side.uaxis, side.vaxis = V.UVAxis(0, 1, 0, 0.0, 0.25), V.UVAxis(0, 0, -1, 0.0, 0.25)
+                if hit():
+                    side.mat = ''
+                if hit():
+                    side.planes = [Vec(), Vec(), Vec()]
+                if side.is_disp and hit():
+                    side.disp_pos, side.disp_elevation, side.disp_flags = Vec(), 0.0, V.DispFlag(0)
 
 
 def make_solid(rng, prof, vmf, vis_pool, grp_pool, world):
@@ -368,6 +474,8 @@ def gen_map(rng: random.Random, prof: Profile = None):
     for _ in range(_n(rng, prof.n_cordons)):
         V.Cordon(vmf, vec(rng, prof), vec(rng, prof), rng.random() < 0.5,
                  text(rng, VALUE_ALPHA, 0, 8) if rng.random() < prof.p_weird_names else 'cordon')
+    if prof.p_shapes:
+        default_scalars(rng, prof, vmf, prof.p_shapes * 0.5)
     return vmf
 
 
